@@ -27,13 +27,17 @@ fn main() {
     let t0 = std::time::Instant::now();
     let dt = t0.elapsed().as_nanos();
     println!(
-        "{} heap={:p} stack={:p} wall={} dt={} pid={} tid={}",
+        "{} heap={:p} stack={:p} wall={} dt={} pid={} tid={} {}",
         out,
         &*boxed,
         &local,
         wall,
         dt,
         std::process::id(),
-        unsafe { gettid() }
+        unsafe { gettid() },
+        std::fs::read_to_string("/proc/self/status")
+            .ok()
+            .and_then(|s| s.lines().find(|l| l.starts_with("VmRSS:")).map(|l| l.split_whitespace().collect::<Vec<_>>().join("=")))
+            .unwrap_or_default()
     );
 }
